@@ -812,9 +812,27 @@ impl<S: Read + Write> H2Conn<S> {
             }
             return Ok(());
         }
+        // a size of 0 in `frame_sizes` is an empty DATA frame in the middle of the body (padding only when `pad` is
+        // set): legal, carries no flow-controlled content byte; at most 6 per body so that the peer's
+        // empty-frame flood detection is not what is being exercised
+        let mut empties = 0;
         while pos < body.len() {
-            let want = if frame_sizes.is_empty() { 16384 } else { frame_sizes[i % frame_sizes.len()].max(1) };
+            let mut want = if frame_sizes.is_empty() { 16384 } else { frame_sizes[i % frame_sizes.len()] };
             i += 1;
+            if want == 0 {
+                if empties < 6 && pos > 0 {
+                    empties += 1;
+                    let f = Frame::data(stream, &[], false, pad);
+                    let sw = *self.send_stream_window.entry(stream).or_insert(self.theirs.initial_window_size as i64);
+                    if (f.payload.len() as i64) <= sw.min(self.send_conn_window) {
+                        self.send_conn_window -= f.payload.len() as i64;
+                        *self.send_stream_window.get_mut(&stream).unwrap() -= f.payload.len() as i64;
+                        self.send(&f).map_err(|e| e.to_string())?;
+                    }
+                    continue;
+                }
+                want = 1;
+            }
             let padlen = pad.map(|p| p as usize + 1).unwrap_or(0);
             let maxf = (self.theirs.max_frame_size as usize).saturating_sub(padlen).max(1);
             let sw = *self.send_stream_window.entry(stream).or_insert(self.theirs.initial_window_size as i64);
